@@ -11,6 +11,15 @@ META["assumptions"] = META["assumptions"] + ["CHECKPOINT_SIZE_LIMIT and LAMBDA_R
 def run(ctx):
     comp_engine.run(ctx, "C16", **comp_engine.PARAMS.get("C16", {}))
     comp_engine.extra(ctx, "C16")
+    # map / parallel results over the (patched) checkpoint limit: stored as a summary, rebuilt from the branches on
+    # replay - equal result, no branch body re-run, nothing new sent for finished branches
+    from harness import comp_executor
+    for i in range(ctx.scale(120, 3000)):
+        sc = comp_executor.gen_scenario0(ctx.rng)
+        sc["ckpt_limit"] = ctx.rng.choice([30, 60, 120])
+        if len(sc["blocks"]) == 1:
+            sc["blocks"].append({"kind": "seq", "actions": [{"a": "wait", "secs": 1}]})
+        comp_executor.one(ctx, "C16", sc, ctx.rng.randrange(1 << 30), component="executor.large")
 
 
 def search(ctx):
@@ -18,4 +27,8 @@ def search(ctx):
 
 
 def replay(ctx, rec):
-    comp_engine.replay(ctx, rec, "C16")
+    if "blocks" in (rec["case"].get("scenario") or {}):
+        from harness import comp_executor
+        comp_executor.replay(ctx, rec, "C16")
+    else:
+        comp_engine.replay(ctx, rec, "C16")
